@@ -251,6 +251,68 @@ let print_result (pr : 'a -> unit) (r : 'a result) =
   | Ok a -> out "OK"; pr a
   | Err e -> out ("ERR " ^ err_name e)
 
+(* ---------- the sampler of Model/EventSIRConst.v (expovariate, sample, binomial):
+   choosing scripted draws, printing traces (same conventions as glue_samp.ml) ---------- *)
+let binom_choices (n : int) (tau : q) (d : q option) : int list =
+  match d with
+  | None -> [n]
+  | Some x -> if QQ.equal (QQ.mul (qq_of_q tau) (qq_of_q x)) QQ.zero then [0] else List.init (n + 1) (fun i -> i)
+
+let bwalk (m : 'a bsamp) (ent : unit -> int) (maxdraws : int) : q list =
+  let ds = ref [] and nd = ref 0 in
+  let push d = ds := d :: !ds; incr nd; if !nd > maxdraws then raise Stop in
+  let rec go (m : 'a bsamp) : unit =
+    match m with
+    | BRet _ | BFail _ -> ()
+    | BExpo (r, k) ->
+      if QQ.equal (qq_of_q r) QQ.zero then () else begin
+        let d = expo_delay (ent ()) in push d; go (k d) end
+    | BSample (pop, n, k) ->
+      let len = List.length pop in
+      if len < int_of_nat n then () else begin
+        let i = if len = 0 then 0 else ent () mod len in
+        push (qi i 1);
+        go (k (firstn n (rotate (nat_of_int i) pop))) end
+    | BBinom (n, tau, d, k) ->
+      let ch = binom_choices (int_of_nat n) tau d in
+      let i = List.nth ch (ent () mod List.length ch) in
+      push (qi i 1); go (k (nat_of_int i)) in
+  (try go m with Stop -> ());
+  List.rev !ds
+
+let bwalk_all (m : 'a bsamp) (delays : q list) (maxdraws : int) (maxpaths : int) : q list list =
+  let paths = ref [] and np = ref 0 in
+  let fin ds = paths := List.rev ds :: !paths; incr np in
+  let rec go (m : 'a bsamp) (ds : q list) (nd : int) : unit =
+    if !np >= maxpaths then () else
+    if nd > maxdraws then fin ds else
+    match m with
+    | BRet _ | BFail _ -> fin ds
+    | BExpo (r, k) ->
+      if QQ.equal (qq_of_q r) QQ.zero then fin ds
+      else List.iter (fun d -> go (k d) (d :: ds) (nd + 1)) delays
+    | BSample (pop, n, k) ->
+      let len = List.length pop in
+      if len < int_of_nat n then fin ds
+      else if len = 0 || int_of_nat n = 0 then go (k (firstn n pop)) (qi 0 1 :: ds) (nd + 1)
+      else List.iteri (fun i _ -> go (k (firstn n (rotate (nat_of_int i) pop))) (qi i 1 :: ds) (nd + 1)) pop
+    | BBinom (n, tau, d, k) ->
+      List.iter (fun i -> go (k (nat_of_int i)) (qi i 1 :: ds) (nd + 1)) (binom_choices (int_of_nat n) tau d) in
+  go m [] 0;
+  List.rev !paths
+
+(* binomial(n, p): p = 1 - exp(-tau*duration) is printed as a float (the model keeps (tau, duration)) *)
+let binom_p (tau : q) (d : q option) : float =
+  match d with
+  | None -> 1.0
+  | Some x -> 1.0 -. exp (-. (QQ.to_float (qq_of_q tau)) *. (QQ.to_float (qq_of_q x)))
+
+let print_bcall = function
+  | BCExpo r -> out (" E:" ^ sq r)
+  | BCSample (pop, n) -> out (" S:" ^ string_of_int (int_of_nat n) ^ ":" ^ skeys pop)
+  | BCBinom (n, tau, d) -> out (" B:" ^ string_of_int (int_of_nat n) ^ ":" ^ Printf.sprintf "%.17g" (binom_p tau d))
+let print_btrace tr = out " | TRACE"; List.iter print_bcall tr
+
 (* ---------- main loop: one case per line, dispatch on the first token ---------- *)
 let main (dispatch : string -> unit) =
   try
@@ -267,7 +329,7 @@ let main (dispatch : string -> unit) =
     done
   with End_of_file -> ()
 
-(* GLUE: base err samp graph main *)
+(* GLUE: base err samp graph esir main *)
 (* Driver of component 'esir': event-driven SIR (Model/EventSIR.v).
    ESIR <graph> i0 r0 tmin tmax? full fuel <tables>          fast_nonMarkov_SIR with table rules
         tables: per node an optional duration, then per node per neighbour (adjacency
@@ -317,6 +379,20 @@ let run_mode (pr : 'a -> unit) (m : 'a samp) =
     List.iteri (fun i ds -> if i > 0 then out " ## "; run_one ds) paths
   | c -> failwith ("bad mode " ^ c)
 
+let run_mode_b (pr : 'a -> unit) (m : 'a bsamp) =
+  let run_one ds =
+    let (res, tr) = bexec m ds [] in
+    print_result pr res; print_draws ds; print_btrace tr in
+  match next () with
+  | "W" -> let ent = read_entropy () in run_one (bwalk m ent 4000)
+  | "D" -> run_one (nlist nq)
+  | "A" ->
+    let maxdraws = nint () in let maxpaths = nint () in
+    let delays = nlist nq in
+    let paths = bwalk_all m delays maxdraws maxpaths in
+    List.iteri (fun i ds -> if i > 0 then out " ## "; run_one ds) paths
+  | c -> failwith ("bad mode " ^ c)
+
 let run_esir () =
   let g = read_graph () in
   let i0 = nlist nn in let r0 = nlist nn in
@@ -350,7 +426,8 @@ let run_fsir () =
   let fuel = nat_of_int (nint ()) in
   if uses_edge_path g tau gamma then
     run_mode (fun (o, _) -> print_simout o) (fast_sir_edge g tau gamma i0 r0 rho tmin tmax full fuel)
-  else out "ERR ConstPathNotModelled | DRAWS | TRACE"
+  else
+    run_mode_b (fun (o, _) -> print_simout o) (fast_sir_const g tau gamma i0 r0 rho tmin tmax full fuel)
 
 let run_perc () =
   let g = read_graph () in
